@@ -43,6 +43,10 @@ func Merc(this *SR) (forward, inverse Transformer, err error) {
 
 	// Mercator forward equations--mapping lat,long to x,y
 	forward = func(lon, lat float64) (x, y float64, err error) {
+		// A longitude that was counted from another prime meridian can
+		// arrive here outside -180..180 degrees (e.g. 242); it denotes the
+		// same meridian as the wrapped value.
+		lon = adjust_lon(lon)
 		// convert to radians
 		if math.IsNaN(lat) || math.IsNaN(lon) || lat*r2d > 90 || lat*r2d < -90 || lon*r2d > 180 || lon*r2d < -180 {
 			err = fmt.Errorf("in proj.Merc forward: invalid longitude (%g) or latitude (%g)", lon, lat)
